@@ -191,6 +191,7 @@ def write_evidence(prop, tier, seed, t0, outc, meta, n_oblig, n_proved, solver_s
         "known_findings_hit": [{"key": k, "what": w, "replay": p} for (k, w, p) in outc.known],
         "violations": [{"role": r, "replay": p, "where": w} for (r, p, w) in outc.violations],
         "toolchain": meta.get("toolchain", {}),
+        "mirsym": meta.get("mirsym", {}),
     }
     ev = {
         "property_id": prop,
@@ -242,9 +243,13 @@ def run_property(prop, tier, plan):
 
     # engine M first (seconds), in this process
     mres = []
-    if plan.get("m"):
+    mmeta = {}
+    if plan.get("m") and not os.environ.get("VERIF_ONLY", "").startswith("K:"):
         try:
+            log("[%s] engine M: symbolic execution of the MIR of /repo's working tree (tier %s)" % (prop, tier))
             mres = plan["m"](tier, seed)
+            if isinstance(mres, tuple):
+                mres, mmeta = mres
         except Exception as e:
             import traceback
             traceback.print_exc()
@@ -253,7 +258,9 @@ def run_property(prop, tier, plan):
     for r in mres:
         n_oblig += 1
         solver_s += r.get("solver_s") or 0.0
-        s = {k: r[k] for k in r if k not in ("replay",)}
+        s = {k: r[k] for k in r if k not in ("replay", "model")}
+        if r["verdict"] != "proved":
+            log("  %-70s %-12s %s" % (r["obligation"][:70], r["verdict"], (r.get("reason") or "")[:160]))
         outc.samples.append(s)
         if r["verdict"] == "proved":
             n_proved += 1
@@ -281,6 +288,13 @@ def run_property(prop, tier, plan):
 
     meta = dict(plan.get("meta", {}))
     meta["toolchain"] = toolchain_info()
+    if mmeta:
+        meta["mirsym"] = mmeta
+        meta["functions_encoded"] = list(meta.get("functions_encoded", [])) + ["MIR: " + f for f in mmeta.get("functions_executed", [])]
+        meta["stubs_and_assumes"] = list(meta.get("stubs_and_assumes", [])) + ["mirsym model: " + x for x in mmeta.get("models_used", [])]
+    if mres:
+        npm = sum(1 for r in mres if r["verdict"] == "proved")
+        log("[%s] engine M: %d/%d obligations discharged" % (prop, npm, len(mres)))
     write_evidence(prop, tier, seed, t0, outc, meta, n_oblig, n_proved, solver_s)
 
     seen = set()
